@@ -142,6 +142,9 @@ def gen_config(ctx, model, loaded, obj, allow_default_ns=True):
     eff = ir.effective_namespaces(model)
     uris = sorted({u for u in eff.values() if u} | {f.namespace for c in model.classes for f in c.fields if f.namespace and not f.namespace.startswith("#")})
     root_ns = eff[model.root]
+    if unqualified_xsi_type_possible(model):
+        # known finding C03/unqualified-xsi-type-under-default-namespace has its own probe
+        allow_default_ns = False
     if r < 0.4:
         cfg["ns_map"] = None
     elif r < 0.55 and root_ns and allow_default_ns:
@@ -154,6 +157,16 @@ def gen_config(ctx, model, loaded, obj, allow_default_ns=True):
         u = rng.choice(uris)
         cfg["ns_map"] = [["one", u], ["two", u]]
     return cfg
+
+
+def unqualified_xsi_type_possible(model):
+    """A derived class whose xsi:type name has no namespace: not expressible while a default namespace is in scope."""
+    for c in model.classes:
+        if c.base:
+            tns = model.module_namespace if model.module_namespace is not None else (c.namespace if (c.has_meta and c.has_namespace) else None)
+            if not tns:
+                return True
+    return False
 
 
 def ns_map_of(cfg):
